@@ -187,6 +187,17 @@ def gen(rng, tier):
         o = rand_options(rng, L)
         rp, cp = perms(rng, n, L)
         yield mk(*o, rp, cp, rows, "random-%s" % ("model" if o[1] else "empirical"))
+    # the same three calls through ONE model object (as `compute distance` / `distboot` do for the alignments of their
+    # input): what a call returns must not depend on the alignments the model has seen before; gap runs make the selected
+    # sites of the column-permuted alignment differ from those of the original
+    for _ in range(60 if quick else 600):
+        rows = rand_alignment(rng)
+        n, L = len(rows), len(rows[0])
+        o = rand_options(rng, L, rg=(rng.random() < 0.7))
+        rp, cp = perms(rng, n, L)
+        c = mk(*o, rp, cp, rows, "reuse-%s" % ("model" if o[1] else "empirical"))
+        c.args.append("reuse")
+        yield c
 
 
 def parse_rows(s):
